@@ -34,6 +34,17 @@ def sys_link(q=20, t=200, quick=True):
             "quick": {"cases": q, "shards": 12, "extra": []} if quick else None,
             "thorough": {"cases": t, "shards": 16, "extra": []}}
 
+SYSW_NOTE = ("sysw_* theorems: the worker model M2 is composed into the system (SysW = Sys + one M2 state per worker + two FIFO queues per "
+             "worker, the actions of the harness world: deliveries, worker-local events, add / lose worker): the worker-protocol side "
+             "conditions of the sys_* theorems (FinProto, RejectOk / UpdProto) and NoSaturation are THEOREMS there (sysw_fin_proto: the update "
+             "batch at the head of every worker's queue satisfies Sys.OpOk in the state in which the reactor processes it), so "
+             "sysw_registry, sysw_no_job_panic, sysw_cancel_final, sysw_max_fails, sysw_outcome_once hold with side conditions about INPUTS "
+             "only (fresh worker records, SubmitOk, no task id submitted twice, QueueOkD / SolMnOk before a scheduling round); "
+             "sysw_c08_cancel_sent: after a cancel is answered every worker still running a task of that job the core knew has a CancelTasks "
+             "naming it in its queue; sysw_c06_single_partial: a task the core knows runs on at most one worker (partial: tasks the core has "
+             "forgotten); SysW is tied to the code through its components (job, core, worker correspondences + the Sys link check); a replay "
+             "driver for SysW itself is not built")
+
 SYS_NOTE = ("sys_* theorems are about the COMPOSED model Sys = job layer M4 x core M1 (HqModel/Sys/Model.lean): every callback of the core is "
             "routed in order to the job layer, the lists on_task_error returns are checked against the rets the core consumed, client "
             "cancel / submit carry exactly what the job layer hands to the core; they hold for every run under the decidable side "
@@ -42,7 +53,7 @@ SYS_NOTE = ("sys_* theorems are about the COMPOSED model Sys = job layer M4 x co
             "replayed through Sys.step, Sys.OpOk evaluated on every real action, routed callbacks compared with the cb.* operations the real "
             "job layer received, registry equality evaluated on every composed state")
 
-def journal(clauses, q=8, t=40):
+def journal(clauses, q=20, t=60):
     """restart clause of a sim property: generated and real (kind sim) journals restored at every prefix by the real StateRestorer"""
     return {"component": "journal", "driver": "hqm-journal", "tags": ["res", "sub", "adj", "core", "prod"], "clauses": clauses,
             "quick": {"cases": q, "shards": 12, "extra": []}, "thorough": {"cases": t, "shards": 16, "extra": []}}
@@ -58,10 +69,10 @@ PROPS = {
                  [job(["ev", "tasks", "job"], ["c01."]), core(["cb", "t"], ["c01.", "core.hyp"]),
                   exhaust("job", ["ev", "tasks", "job"], ["c01."], qd=None)]),
     "C02": entry("C02", ["c02_submit_ids", "c02_auto_ids_agree", "@HqModel.Sys.sys_registry", "@HqModel.Sys.sys_coupled",
-                         "@HqModel.Sys.sys_job_run", "@HqModel.Sys.sys_core_run"],
+                         "@HqModel.Sys.sys_job_run", "@HqModel.Sys.sys_core_run", "@HqModel.SysW.sysw_registry", "@HqModel.SysW.sysw_sys_run"],
                  [job(["core", "live", "resp", "tasks"], ["c02."]), core(["t", "q", "flag"], ["c02."]),
                   exhaust("core", ["t", "q", "flag"], ["c02."], qd=None), sys_link()],
-                 [SYS_NOTE, "progress ('eventually terminal') depends on HiGHS returning an optimal solution and on the fair drain; monitored at rest "
+                 [SYS_NOTE, SYSW_NOTE, "progress ('eventually terminal') depends on HiGHS returning an optimal solution and on the fair drain; monitored at rest "
                   "after a fault-free drain of every generated run, not proved"]),
     "C03": entry("C03", ["c03_not_ready_with_deps", "c03_restart", "depClosed_iff", "c03_compute_only_ready", "c03_compute_only_ready_run",
                          "c03_consumers_waiting_reachable"],
@@ -92,7 +103,8 @@ PROPS = {
                   "NoSaturation, whose failure is finding F29 (c05_f29_witness shows it cannot be dropped)"]),
     "C06": entry("C06", ["c06_retracting_lost_increments", "c06_inst_never_decreases", "c06_sends_nondecreasing", "c06_sent_le_current",
                          "c06_send_after_start", "c06_lost_worker_increments", "c06_equal_resend_witness", "c06_reuse_witness",
-                         "c06_started_unsent_witness", "c06_restart", "c06_restart_emitted", "c06_restart_reuse_witness"],
+                         "c06_started_unsent_witness", "c06_restart", "c06_restart_emitted", "c06_restart_reuse_witness",
+                         "@HqModel.SysW.sysw_c06_single_partial"],
                  [core(["msg", "t", "rd", "w"], ["c06.", "core.hyp"]), journal(["c06.restart"]),
                   exhaust("core", ["msg", "t", "rd", "w"], ["c06.", "core.hyp"], qd=None)],
                  ["message-level theorems are about what the server SENDS: instance ids sent for one task never decrease (c06_sends_nondecreasing, "
@@ -108,19 +120,23 @@ PROPS = {
                          "c07_crash_counter_mono", "c07_crash_only_running_on_lost", "c07_restart", "c07_restart_emitted", "c07_crashes_step"],
                  [core(["cb", "t", "q", "msg"], ["c07.", "core.hyp"]), job(["ev", "tasks", "job", "ret"], ["c07."]), journal(["c07.restart"])]),
     "C08": entry("C08", ["c08_all_terminal", "c08_idempotent", "c08_other_jobs", "c08_core_forgets", "c08_core_forgets_reachable",
-                         "@HqModel.Sys.sys_cancel_final", "@HqModel.Sys.sys_cancel_no_callback"],
+                         "@HqModel.Sys.sys_cancel_final", "@HqModel.Sys.sys_cancel_no_callback", "@HqModel.SysW.sysw_cancel_final",
+                         "@HqModel.SysW.sysw_c08_cancel_sent"],
                  [job(["ev", "resp", "tasks", "job", "live"], ["c08."]), core(["msg", "t", "w", "q", "rd", "cb"], ["c08.", "core.hyp"]),
                   exhaust("job", ["ev", "resp", "tasks", "job", "live"], ["c08."], qd=None), sys_link(quick=False)]),
     "C09": entry("C09", ["c09_open_close_no_panic", "c09_forget_no_panic", "c09_cancel_no_panic", "@HqModel.Sys.sys_no_job_panic",
-                         "@HqModel.Sys.sys_run_no_job_panic", "@HqModel.Sys.sys_started_running", "@HqModel.Sys.sys_outcome_once"],
+                         "@HqModel.Sys.sys_run_no_job_panic", "@HqModel.Sys.sys_started_running", "@HqModel.Sys.sys_outcome_once",
+                         "@HqModel.SysW.sysw_fin_proto", "@HqModel.SysW.sysw_fin_proto_head", "@HqModel.SysW.sysw_fin_view",
+                         "@HqModel.SysW.sysw_pipeline", "@HqModel.SysW.sysw_no_job_panic", "@HqModel.SysW.sysw_run_no_job_panic",
+                         "@HqModel.SysW.sysw_started_running", "@HqModel.SysW.sysw_outcome_once", "@HqModel.SysW.sysw_inv"],
                  [job(["ev", "resp", "ret", "core", "job", "tasks", "live"], ["c09."]),
                   core(["msg", "cb", "flag", "t", "w", "q", "rd"], ["c09."]),
                   exhaust("core", ["msg", "cb", "flag", "t", "w", "q", "rd"], ["c09."]),
                   exhaust("job", ["ev", "resp", "ret", "core", "job", "tasks", "live"], ["c09."]), sys_link()],
-                 [SYS_NOTE, "a panic inside an unmodelled dependency (tokio, HiGHS, bincode) is outside the claim"]),
-    "C14": entry("C14", ["c14_decision", "c14_abort_all", "@HqModel.Sys.sys_max_fails"],
+                 [SYS_NOTE, SYSW_NOTE, "a panic inside an unmodelled dependency (tokio, HiGHS, bincode) is outside the claim"]),
+    "C14": entry("C14", ["c14_decision", "c14_abort_all", "@HqModel.Sys.sys_max_fails", "@HqModel.SysW.sysw_max_fails"],
                  [job(["ret", "ev", "tasks", "job"], ["c14."]), core(["msg", "cb", "t"], ["c14."]), sys_link(quick=False)],
-                 [SYS_NOTE]),
+                 [SYS_NOTE, SYSW_NOTE]),
 }
 
 # C05's theorems about the queue invariant live in a module that imports Props.C05
